@@ -69,13 +69,33 @@ func discharge(obls []*Obligation, opt dischargeOpts) []*Verdict {
 		order = append(order, v)
 	}
 	jobs := make(chan *Verdict)
+	satisfied := map[string]bool{}
+	var satMu sync.Mutex
 	var wg sync.WaitGroup
 	for i := 0; i < opt.workers; i++ {
 		wg.Add(1)
 		go func() {
 			defer wg.Done()
 			for v := range jobs {
+				// canaries, covers and antecedent audits are existential over paths: once one instance of a name is
+				// satisfied the others add nothing
+				exist := v.O.Expect == "sat" && (v.O.Kind == "canary" || v.O.Kind == "cover" || v.O.Kind == "reach")
+				if exist {
+					satMu.Lock()
+					done := satisfied[v.O.Name]
+					satMu.Unlock()
+					if done {
+						v.Status = "ok"
+						v.Result = SolverResult{Status: "sat", Solver: "skipped(another instance satisfied)"}
+						continue
+					}
+				}
 				solveOne(v, opt)
+				if exist && v.Status == "ok" {
+					satMu.Lock()
+					satisfied[v.O.Name] = true
+					satMu.Unlock()
+				}
 			}
 		}()
 	}
